@@ -35,6 +35,7 @@ class Oracle:
         self.trail_truncated = False
         self._saved = None
         self.zero_draws = 0      # seeded-grid mode: 1 in `zero_draws` uniform draws is exactly 0.0
+        self.cell = 0.5          # where inside its grid cell [j/W, (j+1)/W) a uniform draw lies (0.5 = the aligned midpoint)
         self.max_draws = 200000  # enumerate / directed: an execution with more draws is not enumerable (e.g. rejection sampling)
         self.max_trail = 2000000 # seeded: the trail stops being recorded beyond this length (a spinning run must not eat memory)
 
@@ -109,7 +110,7 @@ class Oracle:
         if not w:
             raise OracleMismatch("random() called but no aligned grid configured")
         j = self._next("r", w)
-        return (2 * j + 1) / (2.0 * w)
+        return (j + self.cell) / float(w)
 
     # -- drivers ----------------------------------------------------------
     def run_seeded(self, seed, fn, grid=None):
